@@ -136,7 +136,7 @@ CHECKS["C11"] = {
     "engine": "E2 history explorer",
     "jobs": lambda tier: [job("C11.cpp", "C11_w%d" % w, ["-DVWORLD=%d" % w], shards=1) for w in range(6)],
     "rule": "state = operation history over {update with 6 data sets (same shape / other segment count / other coefficient count / two invalid), evaluate at orders 0/1/top/beyond, hinted evaluate, derivative trajectory, copy-assign, copy-construct, self-assign, swap roles, ...} for PPolyND<2,Dynamic>, PPolyND<2,8>, PPolyND<1,12>, and {update via both overloads with 4 problems, evaluate trajectory, getTrajectoryCopy, copy-assign/construct spline, update copy, propagateGrad, ...} for the three spline classes; after EVERY transition every live object must evaluate (all orders, probe grid, plain + hinted) bit-identically to a fresh object built from its own latest data; distinct = distinct canonical keys (entire private state incl. lazy caches and ready flags); non-trivial = histories of length >= 2",
-    "bounds": {"quick": "6 worlds, BFS to depth 6 or fixpoint", "thorough": "6 worlds, BFS to depth 12 or fixpoint"},
+    "bounds": {"quick": "6 worlds, BFS to depth 8 or fixpoint (all histories of length <= 3 without de-duplication)", "thorough": "6 worlds, BFS to depth 20 or fixpoint"},
     "thresholds": {"all comparisons": "bitwise"},
     "assumptions": ASSUME_COMMON + ["canonical key reads private members through -fno-access-control"],
     "technique": TECH_E2 + "; oracle = fresh-object differential (R5), bitwise",
@@ -255,7 +255,7 @@ CHECKS["C15"] = {
     "engine": "E2 history explorer under AddressSanitizer",
     "jobs": lambda tier: [job("opt_hist.cpp", "C15_s%d" % o, ["-DVPROP=15", "-DVORDER=%d" % o], shards=1, flags=["-fsanitize=address", "-fno-omit-frame-pointer"], env={"ASAN_OPTIONS": "detect_leaks=0:abort_on_error=1"}) for o in (2, 3, 4)],
     "rule": "the optimizer is instantiated with STATEFUL harness maps as its default map types (the bundled default maps are empty structs, so a dangling pointer to one would never be dereferenced); heap-allocated optimizers A, B and two user maps; ops {setInitState (2 problems), setTimeMap(user/null), setSpatialMap(user/null), evaluate (creates the built-in workspace), B = new copy of A, B = A (also over a B that owns a workspace), A = A, delete A and continue with the copy, swap, mutate the copy, change the user maps' parameters}; after EVERY transition: pointer roles are as modelled (each active map is the optimizer's OWN default map or the user map, built-in workspaces are not shared), every live optimizer evaluates bit-identically to a freshly configured equivalent one, copies remain usable through their own built-in workspace, AddressSanitizer silent; canonical key = all private members (pointers by role) + workspace contents",
-    "bounds": {"quick": "3 orders, BFS to depth 5", "thorough": "3 orders, BFS to depth 7 or fixpoint"},
+    "bounds": {"quick": "3 orders, BFS to depth 5 (all histories of length <= 3 without de-duplication)", "thorough": "3 orders, BFS to depth 8 or fixpoint (all histories of length <= 4 without de-duplication)"},
     "thresholds": {"all comparisons": "bitwise"},
     "assumptions": ASSUME_OPT + ["g++ AddressSanitizer as the oracle for use-after-free of a destroyed source optimizer", "pointer roles are read through -fno-access-control"],
     "technique": TECH_E2 + "; oracle = fresh-object differential + pointer-role model + AddressSanitizer",
